@@ -31,6 +31,9 @@ struct State {
     script_pos: usize,
     /// fail the draw with this index (0-based, counted since `begin_op`), after filling `fill_num/2` of the buffer
     fail_at: Option<(usize, u8)>,
+    /// which error the failing draw reports (see `error_of_kind`) and whether every later draw of the operation fails too
+    fail_kind: u8,
+    fail_persist: bool,
     /// fill the first draw of the operation (whatever its length) with this byte
     first_fill: Option<u8>,
     draws_in_op: usize,
@@ -40,7 +43,7 @@ struct State {
 thread_local! {
     static STATE: RefCell<State> = const { RefCell::new(State {
         mode: Mode::Passthrough, seed: 0, counter: 0, script: Vec::new(), script_pos: 0,
-        fail_at: None, first_fill: None, draws_in_op: 0, log: None,
+        fail_at: None, fail_kind: 0, fail_persist: false, first_fill: None, draws_in_op: 0, log: None,
     }) };
 }
 
@@ -51,6 +54,8 @@ pub fn set_passthrough() {
         s.script.clear();
         s.script_pos = 0;
         s.fail_at = None;
+        s.fail_kind = 0;
+        s.fail_persist = false;
         s.log = None;
     });
 }
@@ -64,6 +69,8 @@ pub fn set_seeded(seed: u64) {
         s.script.clear();
         s.script_pos = 0;
         s.fail_at = None;
+        s.fail_kind = 0;
+        s.fail_persist = false;
         s.log = None;
     });
 }
@@ -106,6 +113,40 @@ pub fn fail_at(k: usize, fill: u8) {
     STATE.with(|s| s.borrow_mut().fail_at = Some((k, fill)));
 }
 
+/// As `fail_at`, choosing the error reported (`error_of_kind`) and whether the source stays broken
+/// for the rest of the operation (every draw with index >= k fails).
+pub fn fail_at_with(k: usize, fill: u8, kind: u8, persist: bool) {
+    STATE.with(|s| {
+        let mut s = s.borrow_mut();
+        s.fail_at = Some((k, fill));
+        s.fail_kind = kind;
+        s.fail_persist = persist;
+    });
+}
+
+pub const ERROR_KINDS: u8 = 5;
+
+/// The errors a getrandom source can report: the crate's internal ones, a custom back end's, and
+/// what the Linux back end returns when the system call fails (-errno).
+pub fn error_of_kind(kind: u8) -> getrandom::Error {
+    match kind % ERROR_KINDS {
+        0 => getrandom::Error::UNEXPECTED,
+        1 => getrandom::Error::new_custom(7),
+        2 => os_error(5),  // EIO
+        3 => os_error(11), // EAGAIN
+        _ => getrandom::Error::UNSUPPORTED,
+    }
+}
+
+/// getrandom keeps the constructor for OS errors private; `Error` is a one-field struct around a
+/// non-zero i32 holding -errno.  Built by transmutation and verified through the public accessor;
+/// if the representation ever changes this falls back to UNEXPECTED.
+fn os_error(errno: i32) -> getrandom::Error {
+    const _: () = assert!(std::mem::size_of::<getrandom::Error>() == std::mem::size_of::<i32>());
+    let e: getrandom::Error = unsafe { std::mem::transmute::<i32, getrandom::Error>(-errno) };
+    if e.raw_os_error() == Some(errno) { e } else { getrandom::Error::UNEXPECTED }
+}
+
 /// End the operation; returns the draw log and clears script and fault.
 pub fn end_op() -> Vec<Draw> {
     STATE.with(|s| {
@@ -113,6 +154,8 @@ pub fn end_op() -> Vec<Draw> {
         s.script.clear();
         s.script_pos = 0;
         s.fail_at = None;
+        s.fail_kind = 0;
+        s.fail_persist = false;
         s.first_fill = None;
         s.log.take().unwrap_or_default()
     })
@@ -196,7 +239,7 @@ unsafe extern "Rust" fn __getrandom_v03_custom(dest: *mut u8, len: usize) -> Res
 
         // 2. injected failure
         if let Some((k, fill)) = s.fail_at {
-            if k == idx {
+            if k == idx || (s.fail_persist && idx > k) {
                 let keep = match fill {
                     0 => 0,
                     1 => len / 2,
@@ -211,7 +254,7 @@ unsafe extern "Rust" fn __getrandom_v03_custom(dest: *mut u8, len: usize) -> Res
                 if let Some(log) = s.log.as_mut() {
                     log.push(Draw { len, bytes: buf.to_vec(), failed: true });
                 }
-                return Err(getrandom::Error::UNEXPECTED);
+                return Err(error_of_kind(s.fail_kind));
             }
         }
         if let Some(log) = s.log.as_mut() {
